@@ -114,6 +114,7 @@ func TestVerifC34Handshake(t *testing.T) {
 		"underlays":   c34ref.Underlays,
 		"network_ids": []string{"0", "1", "2^64-1"},
 		"entry":       []string{"Handle (record arrives in the Ack)", "Handshake (record arrives in the SynAck)"},
+		"combos":      "all 27 (key, underlay, network): every operator except the per-byte ones; per-byte mutations on the 9 combos with network index = (key+underlay) mod 3 (quick) / all 27 (thorough)",
 		"mutations":   "same operator set as C34-aurora-parseaddress, applied to the record the remote node's real Handle produced; for a network id mutation the verifying node runs on the other network and the Ack's NetworkID field claims that network",
 		"own_records": "unmutated: full three-message exchange between two real Services, both directions must accept",
 	}}, func(x *mc.X) {
@@ -129,7 +130,7 @@ func TestVerifC34Handshake(t *testing.T) {
 			sa := verifRemoteSynAck(x, remote, local)
 			a := sa.Ack.Address
 			b = &base{rec: c34ref.Record{Underlay: a.Underlay, Overlay: a.Overlay, Signature: a.Signature, NetworkID: nid}.Clone()}
-			b.ops = c34ref.Ops(b.rec, ki)
+			b.ops = c34ref.Ops(b.rec, ki, mc.Thorough() || ni == (ki+ui)%3)
 			memo[combo] = b
 		}
 		op := b.ops[verifChooseIdx(x, len(b.ops))]
@@ -144,7 +145,11 @@ func TestVerifC34Handshake(t *testing.T) {
 		x.Logf("remote key %d underlay %s network %d, local verifies on network %d via %s: %s (%s)", ki, c34ref.Underlays[ui], nid, m.NetworkID, entryName, field, op)
 
 		// fresh services per execution; the verifier runs on m.NetworkID
-		remote := verifNewNode(x, c34ref.Keys[ki], c34ref.Underlays[ui], nid)
+		rfull, err := ma.NewMultiaddr(c34ref.Underlays[ui])
+		x.NoErr(err, "NewMultiaddr")
+		rinfo, err := libp2ppeer.AddrInfoFromP2pAddr(rfull)
+		x.NoErr(err, "AddrInfoFromP2pAddr")
+		remoteAddr, remoteID := rinfo.Addrs[0], rinfo.ID
 		local := verifNewNode(x, c34ref.Keys[lk], verifLocalUnderlay, m.NetworkID)
 		mode := aurora.NewModel().SetMode(aurora.FullNode).Bv.Bytes()
 		ack := &pb.Ack{Address: &pb.BzzAddress{Underlay: m.Underlay, Overlay: m.Overlay, Signature: m.Signature}, NetworkID: m.NetworkID, NodeMode: mode, WelcomeMessage: "hi"}
@@ -157,14 +162,14 @@ func TestVerifC34Handshake(t *testing.T) {
 		if entry == 0 {
 			in := verifEncode(x, &pb.Syn{ObservedUnderlay: lfull}, ack)
 			if pv := mc.Try(func() {
-				info, herr = local.svc.Handle(context.Background(), mock.NewStream(in, &localOut), remote.addr, remote.id)
+				info, herr = local.svc.Handle(context.Background(), mock.NewStream(in, &localOut), remoteAddr, remoteID)
 			}); pv != nil {
 				x.Fail("panic-handle-"+field, "Handle panicked: %v", pv)
 			}
 		} else {
 			in := verifEncode(x, &pb.SynAck{Syn: &pb.Syn{ObservedUnderlay: lfull}, Ack: ack})
 			if pv := mc.Try(func() {
-				info, herr = local.svc.Handshake(context.Background(), mock.NewStream(in, &localOut), remote.addr, remote.id)
+				info, herr = local.svc.Handshake(context.Background(), mock.NewStream(in, &localOut), remoteAddr, remoteID)
 			}); pv != nil {
 				x.Fail("panic-handshake-"+field, "Handshake panicked: %v", pv)
 			}
@@ -183,6 +188,7 @@ func TestVerifC34Handshake(t *testing.T) {
 			if entry == 1 {
 				// complete the exchange: what the local Handshake wrote (Syn + Ack with
 				// its own record) must be accepted by the remote node's real Handle
+				remote := verifNewNode(x, c34ref.Keys[ki], c34ref.Underlays[ui], nid)
 				var back *aurora.AddressInfo
 				var berr error
 				if pv := mc.Try(func() {
@@ -215,5 +221,52 @@ func TestVerifC34Handshake(t *testing.T) {
 		default:
 			x.Outcome("mutated->other-error")
 		}
+	})
+}
+
+// TestVerifC34HandshakeMissingFields: messages that carry no record at all
+// must not be accepted either. A panic is not an acceptance, so it does not
+// violate C34; it is counted as an observation (tag) and reported in NOTES.md.
+func TestVerifC34HandshakeMissingFields(t *testing.T) {
+	shapes := []string{"Handle: Ack without Address", "Handshake: SynAck.Ack without Address", "Handshake: SynAck without Ack", "Handshake: SynAck without Syn"}
+	mc.Run(t, mc.Config{ID: "C34", Name: "C34-handshake-missing-fields", MaxDev: -1, Params: map[string]interface{}{"shapes": shapes}}, func(x *mc.X) {
+		shape := x.Choose(len(shapes))
+		nid := uint64(1)
+		local := verifNewNode(x, c34ref.Keys[0], verifLocalUnderlay, nid)
+		rfull, err := ma.NewMultiaddr(c34ref.Underlays[0])
+		x.NoErr(err, "NewMultiaddr")
+		rinfo, err := libp2ppeer.AddrInfoFromP2pAddr(rfull)
+		x.NoErr(err, "AddrInfoFromP2pAddr")
+		lfull, err := local.full.MarshalBinary()
+		x.NoErr(err, "marshal")
+		mode := aurora.NewModel().SetMode(aurora.FullNode).Bv.Bytes()
+		ack := &pb.Ack{NetworkID: nid, NodeMode: mode}
+		syn := &pb.Syn{ObservedUnderlay: lfull}
+		var info *aurora.AddressInfo
+		var herr error
+		var out bytes.Buffer
+		x.Logf("%s", shapes[shape])
+		pv := mc.Try(func() {
+			switch shape {
+			case 0:
+				info, herr = local.svc.Handle(context.Background(), mock.NewStream(verifEncode(x, syn, ack), &out), rinfo.Addrs[0], rinfo.ID)
+			case 1:
+				info, herr = local.svc.Handshake(context.Background(), mock.NewStream(verifEncode(x, &pb.SynAck{Syn: syn, Ack: ack}), &out), rinfo.Addrs[0], rinfo.ID)
+			case 2:
+				info, herr = local.svc.Handshake(context.Background(), mock.NewStream(verifEncode(x, &pb.SynAck{Syn: syn}), &out), rinfo.Addrs[0], rinfo.ID)
+			default:
+				info, herr = local.svc.Handshake(context.Background(), mock.NewStream(verifEncode(x, &pb.SynAck{Ack: ack}), &out), rinfo.Addrs[0], rinfo.ID)
+			}
+		})
+		verifTimeout(x, herr)
+		x.Nontrivial()
+		if pv != nil {
+			x.Logf("panicked: %v", pv)
+			x.Tag("observation-panic-on-missing-field")
+			x.Outcome("missing-field->panic")
+			return
+		}
+		x.Check(herr != nil && info == nil, "accepts-message-without-record", "%s: accepted (info=%v)", shapes[shape], info)
+		x.Outcome("missing-field->error")
 	})
 }
